@@ -105,6 +105,8 @@ def cases(tier, seed):
     reqs.append(mie_ref.req_homog(1.2, 5.0))
     out.append({"id": "mie-far:m=1.2:x=5.0:kr=1e5", "kind": "far",
                 "m": [1.2, 0.0], "x": 5.0, "kr": 1e5})
+    reqs.append(mie_ref.req_homog(1.2, 1.0))
+    out.append({"id": "mie-j1-zeros", "kind": "j1zero"})
     mie_ref.ensure(reqs)
     return out
 
@@ -213,6 +215,46 @@ def _run_mie(case, ck):
                     "(radial=%s full=%s m=%r x=%r pol=%g)" %
                     (ez, rad, full, m, x, pa))
             fps.append(fp_values(f))
+    return digest(*fps)
+
+
+J1_ZEROS = [4.493409457909064, 10.904121659428899, 17.220755271930768,
+            7.725251836937707]
+
+
+def _run_j1zero(case, ck):
+    """detector points whose distance makes j_1(kr) vanish (to the last
+    bit): the radial functions are normalised with j_0 or j_1 there"""
+    import holopy as hp
+    from holopy.scattering import Sphere, Mie, calc_field
+    m, x = 1.2, 1.0
+    a, b = mie_ref.coeffs(m, x)
+    sph = Sphere(n=m * N_MED, r=x / K, center=CENTER)
+    fps = []
+    for kr0 in J1_ZEROS:
+        for rel in (0.0, 1e-12, -1e-9):
+            r = kr0 * (1 + rel) / K
+            th = np.repeat(np.array(THETA), len(PHI))
+            ph = np.tile(np.array(PHI), len(THETA))
+            det = hp.detector_points(r=r, theta=th, phi=ph)
+            pts = np.stack([CENTER[0] + r * np.sin(th) * np.cos(ph),
+                            CENTER[1] + r * np.sin(th) * np.sin(ph),
+                            CENTER[2] - r * np.cos(th)], 1)
+            for pa in (0.0, 30.0):
+                pol = _pol(pa)
+                f = calc_field(det, sph, N_MED, WL, pol,
+                               theory=Mie()).values
+                ck.trans += 1
+                ref = mie_ref.holopy_field(a, b, K, CENTER, pts, pol, True,
+                                           True)
+                exy, ez = _field_err(f, ref)
+                ck.metric("mie-field-j1zero", max(exy, ez))
+                ck.true("mie-field", max(exy, ez) <= TOL["mie-field"] and
+                        np.isfinite(f).all(), "calc_field(Mie) at kr = %r "
+                        "(zero of j_1 %r, relative offset %g) differs from "
+                        "the textbook series by %.2e / %.2e (x, y / z)" %
+                        (kr0 * (1 + rel), kr0, rel, exy, ez))
+                fps.append(fp_values(f))
     return digest(*fps)
 
 
@@ -441,7 +483,7 @@ def _run_layered_t(case, ck):
 
 def run_case(case):
     ck = Checker()
-    fp = {"mie": _run_mie, "far": _run_far, "ms": _run_ms, "msm": _run_msm,
+    fp = {"mie": _run_mie, "far": _run_far, "j1zero": _run_j1zero, "ms": _run_ms, "msm": _run_msm,
           "layered": _run_layered, "layered_t": _run_layered_t}[
               case["kind"]](case, ck)
     return ck.result(fp=fp)
